@@ -25,7 +25,8 @@ EXPLANATION = (
     "never modified. Fee primitives: size-fee = size × fee_per_byte, claim outputs pay max(name fee, size fee), "
     "the estimator's effective amount = amount − input fee."
 )
-TECHNIQUE = "static analysis: CLEANUP handler check, guard dominance (exact), def-use dependence of amounts, who-may-write, stdlib signature check"
+EXACTNESS = "Second pass (DESIGN.md §10, exactness / completeness halves) — selection is refused only for the stated shortage tests, the fall-back chain is complete, the accumulating fall-back accumulates from 0 over all candidates, candidates are all outputs of all funding accounts, effective amount = amount − spend fee; exact-match (branch and bound) search tests equal the reference algorithm's."
+TECHNIQUE = "static analysis: CLEANUP handler check, guard dominance (exact), def-use dependence of amounts, who-may-write, stdlib signature check; exact fact-set comparison of the tests dominating each effect and refusal (effect / refusal tables), fall-through path queries"
 NOT_DECIDED = "that inputs = outputs + fee and the numeric fee bounds hold for concrete amounts (arithmetic over runtime values); 'never fails in any other way' beyond the exception paths analysed"
 ASSUMPTIONS = ["fee_per_byte / fee_per_name_char are non-negative ints"]
 
